@@ -868,3 +868,33 @@ func (m *Model) RunCtxComplete(s *Sink, rule string) {
 		s.Undecided(rule, "ctx.EvalCtx|constructions", "-", "no construction of an evaluation context found")
 	}
 }
+
+// RunFreshContext — R-REGISTRY (current registry): a custom function "stays callable, before and after templates are
+// loaded": the evaluation context a render uses is built in that very call (`evaluator.New(ctx.NewContext(…, customFunc,
+// …))`), so it carries the registry as it is now. A context kept on the Template from the first rendering of a file
+// (with its own copy of the registry) never sees a function registered afterwards.
+func (m *Model) RunFreshContext(s *Sink, rule string) {
+	st := m.Method("textwire", "Template", "String")
+	if st == nil {
+		s.Undecided(rule, "textwire.(*Template).String", "-", "not found")
+		return
+	}
+	ok := false
+	m.walkInlined(st, 2, func(in ssa.Instruction, resolve func(ssa.Value) ssa.Value, _ int) {
+		c, isC := in.(*ssa.Call)
+		if !isC || !isEvalCall(m, c) {
+			return
+		}
+		if nc, isN := resolve(c.Call.Args[0]).(*ssa.Call); isN && nc.Call.StaticCallee() != nil && canonFnName(nc.Call.StaticCallee()) == "New" && inPkg(nc.Call.StaticCallee(), "evaluator") {
+			if cc, isCC := resolve(nc.Call.Args[0]).(*ssa.Call); isCC && cc.Call.StaticCallee() != nil && canonFnName(cc.Call.StaticCallee()) == "NewContext" {
+				ok = true
+			}
+		}
+	})
+	key := fnKey(st) + "|a render sees the registry as it is when it runs"
+	if ok {
+		s.OK(rule, key, m.Pos(st.Pos()), "Eval is called on evaluator.New(ctx.NewContext(...)) built in this call from the package's registry")
+	} else {
+		s.Violation(rule, key, m.Pos(st.Pos()), "the evaluation context Template.String evaluates with is not built in the call (it is kept from an earlier rendering): a function registered after the first rendering of a file cannot be called from it")
+	}
+}
